@@ -601,7 +601,20 @@ fn concurrent_child(seed: u64, dir: &Path, replay: Option<Vec<u32>>) -> Value {
 					if debug {
 						eprintln!("  writer{} round {} before batch(): file {} map {}", w, round, file_size(&dirp), map_size(&dirp));
 					}
+					// the data file's high-water mark is beyond the resize threshold of the current map
+					// (with a margin for the harness' coarser measure): the resize check that batch() runs
+					// on a thread without open transactions must have enlarged the map - at once, or by
+					// the deferred resize it waits for - before the batch is handed out
+					let (fs0, ms0) = (file_size(&dirp), map_size(&dirp));
+					let must_grow = ms0 > 0 && fs0.saturating_sub(4096) as f64 > 0.9 * ms0 as f64 + 32768.0;
 					let mut b = store.batch().map_err(|e| format!("batch(): {:?}", e))?;
+					if must_grow {
+						let ms1 = map_size(&dirp);
+						if ms1 <= ms0 {
+							return Err(format!("RESIZE-LOST batch() handed out a batch in a map of {} bytes although the data file had already reached {} bytes (threshold 90%) when it was called: the resize did not take place", ms1, fs0));
+						}
+						sched::yield_point("resize-observed", None);
+					}
 					if debug {
 						eprintln!("  writer{} round {} in batch: file {} map {}", w, round, file_size(&dirp), map_size(&dirp));
 					}
@@ -639,7 +652,8 @@ fn concurrent_child(seed: u64, dir: &Path, replay: Option<Vec<u32>>) -> Value {
 					Ok(())
 				})();
 				if let Err(e) = res {
-					viols.lock().unwrap().push(("operation-failed".into(), format!("writer{} round {}: {}", w, round, e)));
+					let class = if e.starts_with("RESIZE-LOST") { "resize-lost" } else { "operation-failed" };
+					viols.lock().unwrap().push((class.into(), format!("writer{} round {}: {}", w, round, e)));
 					return;
 				}
 			}
